@@ -346,7 +346,9 @@ func (c *FnCtx) loadLoc(st *State, loc *Loc) SV {
 			if c.vc.quant == 0 {
 				c.assumeAllocated(st, v)
 				if c.lastReadInitial {
-					c.vc.Assert(Or(Eq(v, IntLit(0)), And(App(SBool, "<", IntLit(0), v), App(SBool, "<", v, c.allocInit()))))
+					// only for objects that themselves existed at entry (a callee may have
+					// described fresh objects through the unchanged heap constant)
+					c.vc.Assert(Implies(App(SBool, "<", loc.Idx, c.allocInit()), Or(Eq(v, IntLit(0)), And(App(SBool, "<", IntLit(0), v), App(SBool, "<", v, c.allocInit())))))
 				}
 			}
 		}
@@ -369,7 +371,7 @@ func (c *FnCtx) loadLoc(st *State, loc *Loc) SV {
 		if c.vc.quant == 0 {
 			c.assumeAllocated(st, sl.Arr)
 			if arrInitial {
-				c.vc.Assert(Or(Eq(sl.Arr, IntLit(0)), And(App(SBool, "<", IntLit(0), sl.Arr), App(SBool, "<", sl.Arr, c.allocInit()))))
+				c.vc.Assert(Implies(App(SBool, "<", loc.Idx, c.allocInit()), Or(Eq(sl.Arr, IntLit(0)), And(App(SBool, "<", IntLit(0), sl.Arr), App(SBool, "<", sl.Arr, c.allocInit())))))
 			}
 			c.vc.Assert(And(App(SBool, "<=", IntLit(0), sl.Off), App(SBool, "<=", IntLit(0), sl.Len), App(SBool, "<=", sl.Len, sl.Cap),
 				Implies(Eq(sl.Arr, IntLit(0)), And(Eq(sl.Len, IntLit(0)), Eq(sl.Cap, IntLit(0))))))
